@@ -122,6 +122,15 @@ def run(ctx):
         ret, raised, n1, n2 = call(compute_2d_process_grid_from_max, a, b, s)
         events.append({"k": "call", "max1": a, "max2": b, "size": s, "returned": ret, "raised": raised, "n1": n1, "n2": n2})
         meta.append(("random", a, b, s))
+    # the entry point that takes grid sizes, on every small size vector (extents of 1 - a single plane, a single radius - included)
+    top = 4 if quick else 6
+    for nr in range(1, top + 1):
+        for nz in range(1, top + 1):
+            for nv in range(1, top + 1):
+                for s in range(1, 13):
+                    ret, raised, n1, n2 = call(compute_2d_process_grid, [nr, 8, nz, nv], s)
+                    events.append({"k": "gridcall", "npts": [nr, 8, nz, nv], "size": s, "returned": ret, "raised": raised, "n1": n1, "n2": n2})
+                    meta.append(("gridcall", (nr, 8, nz, nv), s))
     ngrid = 40 if quick else 250
     for i in range(ngrid):
         npts = [rng.randint(2, 9) for _ in range(4)]
